@@ -512,7 +512,8 @@ pub fn check_answer(truth: &Truth, q: &[MerkleHash], ans: &Option<(usize, FileDa
     }
     let mut bytes = 0u64;
     for i in 0..*n {
-        if x[a + i].0 != q[i] {
+        // compared as bytes: the oracle must not depend on the hash type's own equality
+        if x[a + i].0.as_bytes() != q[i].as_bytes() {
             return fail("dedup-wrong-hash", format!("xorb chunk {} is not query hash {i}", a + i));
         }
         bytes += x[a + i].1 as u64;
@@ -582,7 +583,18 @@ impl QueryGen {
                 let l = rng.urange(1, x.len() - a);
                 let mut q: Vec<MerkleHash> = x[a..a + l].iter().map(|c| c.0).collect();
                 let kdiv = rng.usize_below(q.len());
-                q[kdiv] = if rng.chance(1, 2) { same_prefix(rng, &q[kdiv]) } else { rand_hash(rng) };
+                q[kdiv] = match rng.below(4) {
+                    0 => same_prefix(rng, &q[kdiv]),
+                    1 => rand_hash(rng),
+                    // twins differing from the stored hash in a single 64-bit word (the last one, or a middle one)
+                    2 => MerkleHash::from([q[kdiv][0], q[kdiv][1], q[kdiv][2], q[kdiv][3] ^ (1u64 << rng.below(64))]),
+                    _ => {
+                        let wd = rng.urange(1, 2);
+                        let mut ws = [q[kdiv][0], q[kdiv][1], q[kdiv][2], q[kdiv][3]];
+                        ws[wd] = rng.next_u64();
+                        MerkleHash::from(ws)
+                    },
+                };
                 (q, "diverge")
             },
             3 => (vec![same_prefix(rng, &x[a].0)], "absent-shared-prefix"),
